@@ -159,6 +159,17 @@ pub struct Harness {
     pub peek: Peek,
 }
 
+impl Drop for Harness {
+    /// A package whose container panicked earlier (poisoned lock inside cfb)
+    /// may panic again while being dropped; that must not take the checker
+    /// down.
+    fn drop(&mut self) {
+        if let Some(p) = self.pkg.take() {
+            let _ = catch(move || drop(p));
+        }
+    }
+}
+
 fn io_res<T>(r: std::io::Result<T>) -> Outcome {
     match r {
         Ok(_) => Outcome::Ok,
@@ -224,9 +235,9 @@ impl Harness {
         match bytes {
             Err(e) => Outcome::Err(e),
             Ok(b) => match Harness::open(b) {
-                Ok(h) => {
-                    self.pkg = h.pkg;
-                    self.peek = h.peek;
+                Ok(mut h) => {
+                    self.pkg = h.pkg.take();
+                    self.peek = h.peek.clone();
                     Outcome::Ok
                 }
                 Err(e) => {
@@ -371,8 +382,38 @@ pub fn ticks_to_time(t: i64) -> std::time::SystemTime {
 #[derive(Clone, Debug, PartialEq, Eq)]
 pub struct TableM {
     pub cols: Vec<ColSpec>,
-    /// kept sorted by key tuple
+    /// sorted by key tuple for tables created through the API; tables read
+    /// from a foreign file keep their file order until first rewritten
     pub rows: Vec<Vec<Val>>,
+    /// the rows of _Columns / _Validation that describe this table
+    pub cat_columns: Vec<Vec<Val>>,
+    pub cat_validation: Vec<Vec<Val>>,
+}
+
+impl TableM {
+    /// A table created through the API: catalog rows derived from the spec.
+    pub fn created(name: &str, cols: &[ColSpec], with_validation: bool) -> TableM {
+        let mut cat_columns = Vec::new();
+        let mut cat_validation = Vec::new();
+        for (i, c) in cols.iter().enumerate() {
+            cat_columns.push(vec![Val::s(name), Val::Int(i as i32 + 1), Val::Str(c.name.clone()), Val::Int(c.type_word())]);
+            if with_validation {
+                cat_validation.push(vec![
+                    Val::s(name),
+                    Val::Str(c.name.clone()),
+                    Val::s(if c.nullable { "Y" } else { "N" }),
+                    c.range.map(|r| Val::Int(r.0)).unwrap_or(Val::Null),
+                    c.range.map(|r| Val::Int(r.1)).unwrap_or(Val::Null),
+                    c.fk.as_ref().map(|f| Val::Str(f.0.clone())).unwrap_or(Val::Null),
+                    c.fk.as_ref().map(|f| Val::Int(f.1)).unwrap_or(Val::Null),
+                    c.category.as_ref().map(|x| Val::Str(x.clone())).unwrap_or(Val::Null),
+                    if c.enums.is_empty() { Val::Null } else { Val::Str(c.enums.join(";")) },
+                    Val::Null,
+                ]);
+            }
+        }
+        TableM { cols: cols.to_vec(), rows: vec![], cat_columns, cat_validation }
+    }
 }
 
 impl TableM {
@@ -413,6 +454,7 @@ pub struct Model {
     pub has_signature: bool,
     /// rows of the catalog tables that describe `_Validation` itself, as
     /// observed on a freshly created package (baseline, not modelled)
+    /// complete current content of the three catalog tables, in stored order
     pub base_tables: Vec<Vec<Val>>,
     pub base_columns: Vec<Vec<Val>>,
     pub base_validation: Vec<Vec<Val>>,
@@ -442,27 +484,58 @@ pub fn is_table_name_ok(name: &str) -> Tri {
 }
 
 impl Model {
-    /// Model of a freshly created package; the catalog baseline is read from
-    /// the snapshot of a real freshly created package.
+    /// Model of a freshly created package; the catalog baseline (the rows
+    /// describing `_Validation` itself) is read from the snapshot of a real
+    /// freshly created package.
     pub fn new(ptype: u8, fresh: &Snapshot) -> Model {
-        let rows_of = |n: &str| -> Vec<Vec<Val>> { fresh.table(n).and_then(|t| t.rows.clone().ok()).unwrap_or_default() };
+        let mut m = Model::from_snapshot(fresh);
+        m.ptype = ptype;
+        m
+    }
+
+    /// Model of an arbitrary opened package, taken from its observation:
+    /// user tables keep their rows in file order and their catalog rows as
+    /// found.
+    pub fn from_snapshot(snap: &Snapshot) -> Model {
+        let rows_of = |n: &str| -> Vec<Vec<Val>> { snap.table(n).and_then(|t| t.rows.clone().ok()).unwrap_or_default() };
         let mut catalog_cols = BTreeMap::new();
-        for t in &fresh.tables {
-            catalog_cols.insert(t.name.clone(), t.cols.clone());
+        let mut tables = BTreeMap::new();
+        let is_cat = |n: &str| n == "_Tables" || n == "_Columns" || n == "_Validation";
+        let all_columns = rows_of("_Columns");
+        let all_validation = rows_of("_Validation");
+        for t in &snap.tables {
+            if is_cat(&t.name) {
+                catalog_cols.insert(t.name.clone(), t.cols.clone());
+            } else {
+                let name = Val::Str(t.name.clone());
+                tables.insert(
+                    t.name.clone(),
+                    TableM {
+                        cols: t.cols.clone(),
+                        rows: t.rows.clone().unwrap_or_default(),
+                        cat_columns: all_columns.iter().filter(|r| r[0] == name).cloned().collect(),
+                        cat_validation: all_validation.iter().filter(|r| r[0] == name).cloned().collect(),
+                    },
+                );
+            }
         }
         Model {
-            ptype,
-            db_codepage: fresh.db_codepage,
-            tables: BTreeMap::new(),
-            streams: BTreeMap::new(),
-            summary: fresh.summary.clone(),
-            has_signature: false,
+            ptype: snap.ptype,
+            db_codepage: snap.db_codepage,
+            streams: snap.streams.iter().filter_map(|(n, c)| c.clone().ok().map(|b| (n.clone(), b))).collect(),
+            summary: snap.summary.clone(),
+            has_signature: snap.has_signature,
             base_tables: rows_of("_Tables"),
-            base_columns: rows_of("_Columns"),
-            base_validation: rows_of("_Validation"),
+            base_columns: all_columns.clone(),
+            base_validation: all_validation.clone(),
             catalog_cols,
+            tables,
             diverged: false,
         }
+    }
+
+    pub fn has_validation(&self) -> bool {
+        self.catalog_cols.contains_key("_Validation")
     }
 
     fn eval_cond(t: &TableM, row: &[Val], cond: &Option<E>) -> Vec<bool> {
@@ -563,11 +636,26 @@ impl Model {
                         }
                     }
                 }
-                self.tables.insert(name.clone(), TableM { cols: cols.clone(), rows: vec![] });
+                let hv = self.has_validation();
+                let t = TableM::created(name, cols, hv);
+                // the library re-sorts a catalog table whenever it inserts
+                self.base_tables.push(vec![Val::Str(name.clone())]);
+                self.base_tables.sort();
+                self.base_columns.extend(t.cat_columns.iter().cloned());
+                self.base_columns.sort_by(|a, b| (&a[0], &a[1]).cmp(&(&b[0], &b[1])));
+                if hv {
+                    self.base_validation.extend(t.cat_validation.iter().cloned());
+                    self.base_validation.sort_by(|a, b| (&a[0], &a[1]).cmp(&(&b[0], &b[1])));
+                }
+                self.tables.insert(name.clone(), t);
                 verdict
             }
             Op::DropTable { name } => {
                 if self.tables.remove(name).is_some() {
+                    let n = Val::Str(name.clone());
+                    self.base_tables.retain(|r| r[0] != n);
+                    self.base_columns.retain(|r| r[0] != n);
+                    self.base_validation.retain(|r| r[0] != n);
                     Expect::Ok
                 } else {
                     Expect::Err
@@ -650,7 +738,10 @@ impl Model {
                     }
                 }
                 t.rows = new_rows;
-                t.sort();
+                // the library re-sorts only when a key column was assigned
+                if sets.iter().any(|(c, _)| t.col_index(c).map(|i| t.cols[i].key).unwrap_or(false)) {
+                    t.sort();
+                }
                 verdict
             }
             Op::Delete { table, cond } => {
@@ -685,28 +776,45 @@ impl Model {
                 }
                 Expect::Ok
             }
-            Op::WriteStream { name, len, seed } => match stream_name_class(name) {
-                Tri::Reject => Expect::Err,
-                Tri::Unspecified => Expect::Either,
-                Tri::Accept => {
-                    self.streams.insert(name.clone(), stream_content(*len, *seed));
-                    Expect::Ok
+            Op::WriteStream { name, len, seed } => {
+                let c = stream_name_class(name);
+                if c == Tri::Reject {
+                    return Expect::Err;
                 }
-            },
-            Op::RemoveStream { name } => match stream_name_class(name) {
-                Tri::Reject => Expect::Err,
-                Tri::Unspecified => Expect::Either,
-                Tri::Accept => {
-                    if self.streams.remove(name).is_some() {
+                // names equal under the container's comparison are one entry
+                let cls = name_class(name);
+                self.streams.retain(|k, _| name_class(k) != cls);
+                self.streams.insert(name.clone(), stream_content(*len, *seed));
+                if c == Tri::Accept {
+                    Expect::Ok
+                } else {
+                    Expect::Either
+                }
+            }
+            Op::RemoveStream { name } => {
+                let c = stream_name_class(name);
+                if c == Tri::Reject {
+                    return Expect::Err;
+                }
+                let cls = name_class(name);
+                let n = self.streams.len();
+                self.streams.retain(|k, _| name_class(k) != cls);
+                if self.streams.len() < n {
+                    if c == Tri::Accept {
                         Expect::Ok
                     } else {
-                        Expect::Err
+                        Expect::Either
                     }
+                } else {
+                    Expect::Err
                 }
-            },
+            }
             Op::ReadMissing { name } => {
-                if self.streams.contains_key(name) {
+                let cls = name_class(name);
+                if self.streams.keys().any(|k| name_class(k) == cls) {
                     Expect::Ok
+                } else if stream_name_class(name) == Tri::Unspecified {
+                    Expect::Either
                 } else {
                     Expect::Err
                 }
@@ -746,7 +854,29 @@ impl Model {
                 self.has_signature = false;
                 Expect::Ok
             }
-            Op::Flush | Op::Reopen | Op::DropReopen => Expect::Ok,
+            Op::Flush => Expect::Ok,
+            Op::Reopen | Op::DropReopen => {
+                // text goes through its code page: characters it cannot
+                // represent come back as the replacement byte '?'
+                let cp = self.summary.codepage;
+                let thru = |cp: i32, s: &str| -> String { crate::c14::ref_decode(cp, &crate::c14::ref_encode(cp, s)) };
+                for f in [&mut self.summary.title, &mut self.summary.subject, &mut self.summary.author, &mut self.summary.comments, &mut self.summary.creating_app, &mut self.summary.arch] {
+                    if let Some(t) = f {
+                        *t = thru(cp, t);
+                    }
+                }
+                let dcp = self.db_codepage;
+                for t in self.tables.values_mut() {
+                    for r in t.rows.iter_mut() {
+                        for c in r.iter_mut() {
+                            if let Val::Str(x) = c {
+                                *x = thru(dcp, x);
+                            }
+                        }
+                    }
+                }
+                Expect::Ok
+            }
         }
     }
 
@@ -755,30 +885,9 @@ impl Model {
     pub fn expected_snapshot(&self) -> Snapshot {
         let mut tables = Vec::new();
         // catalog rows
-        let mut t_rows = self.base_tables.clone();
-        let mut c_rows = self.base_columns.clone();
-        let mut v_rows = self.base_validation.clone();
-        for (name, t) in &self.tables {
-            t_rows.push(vec![Val::Str(name.clone())]);
-            for (i, c) in t.cols.iter().enumerate() {
-                c_rows.push(vec![Val::Str(name.clone()), Val::Int(i as i32 + 1), Val::Str(c.name.clone()), Val::Int(c.type_word())]);
-                v_rows.push(vec![
-                    Val::Str(name.clone()),
-                    Val::Str(c.name.clone()),
-                    Val::s(if c.nullable { "Y" } else { "N" }),
-                    c.range.map(|r| Val::Int(r.0)).unwrap_or(Val::Null),
-                    c.range.map(|r| Val::Int(r.1)).unwrap_or(Val::Null),
-                    c.fk.as_ref().map(|f| Val::Str(f.0.clone())).unwrap_or(Val::Null),
-                    c.fk.as_ref().map(|f| Val::Int(f.1)).unwrap_or(Val::Null),
-                    c.category.as_ref().map(|x| Val::Str(x.clone())).unwrap_or(Val::Null),
-                    if c.enums.is_empty() { Val::Null } else { Val::Str(c.enums.join(";")) },
-                    Val::Null,
-                ]);
-            }
-        }
-        t_rows.sort();
-        c_rows.sort_by(|a, b| (&a[0], &a[1]).cmp(&(&b[0], &b[1])));
-        v_rows.sort_by(|a, b| (&a[0], &a[1]).cmp(&(&b[0], &b[1])));
+        let t_rows = self.base_tables.clone();
+        let c_rows = self.base_columns.clone();
+        let v_rows = self.base_validation.clone();
         for (n, rows) in [("_Tables", t_rows), ("_Columns", c_rows), ("_Validation", v_rows)] {
             if let Some(cols) = self.catalog_cols.get(n) {
                 tables.push(TableSnap { name: n.to_string(), cols: cols.clone(), reported_len: rows.len(), rows: Ok(rows) });
@@ -802,6 +911,16 @@ impl Model {
             summary: self.summary.clone(),
         }
     }
+}
+
+/// The container compares (encoded) names by UTF-16 length, then upper-cased
+/// text.  Two given names are the same entry for the model only if their
+/// encodings are equal under that comparison AND the names themselves differ
+/// by case only (so "00" and U+3800, whose encodings coincide, stay distinct
+/// names that must not alias; "é" and "É" may be one entry).
+pub fn name_class(name: &str) -> String {
+    let m = crate::dec::mangle(name, false);
+    format!("{}|{}", m.to_uppercase(), name.to_uppercase())
 }
 
 /// Reference classification of stream names (C11): Accept = the library must
